@@ -123,6 +123,16 @@ def run(tier, seed):
             meta[cid] = (i, cpu, big, rule, modelled, src)
             opt = " optimize=1" if CARRIERS.index((cpu, tmpl, big, rule, modelled)) in OPTIMIZE else ""
             cases.append((cid, "imgmax=8192" + opt, src))
+            # the same program behind a directive that declares the image's bounds before anything is placed
+            # (.high_address 0 / .low_address 0xffff0: every later write widens them again; for labels and sizes they
+            # are no statements at all, TwoPass.tla has nothing to say about them)
+            if (i + len(cases)) % (1 if tier == "thorough" else 5) == 0:
+                bl = (".high_address 0", ".low_address 0xffff0")[i % 2]
+                lines = src.split("\n")
+                cidb = cid + ".bd"
+                srcb = "\n".join(lines[:1] + [bl] + lines[1:])
+                meta[cidb] = (i, cpu, big, rule, modelled, srcb)
+                cases.append((cidb, "imgmax=8192" + opt, srcb))
     # branch family: every `L: insn ..., L` form of tests/comparison (45 CPUs) with a forward reference over a gap of
     # 0 / 100 / 300 / 40000 / 200000 bytes and a backward reference back over it; the probes behind the labels show
     # whether an instruction changed its size between the passes (no size rule is modelled: here = bound is the clause)
@@ -233,7 +243,7 @@ def run(tier, seed):
                         return True
                 return False
             if not modelled and forward_ref(progs[i]):
-                tm = CARRIERS[int(cid.split(".")[-1])][1]
+                tm = CARRIERS[int(cid.split(".")[2])][1]
                 chk.report("TwoPass.ForwardReferenceShrinksInPass2@%s:%s" % (cpu, tm),
                            "labels %s drift between passes on .%s (forward reference, no scopes)\n%s" % (v["drift"], cpu, src), payload)
             elif any(s["k"] == "scope" for s in progs[i]) and not modelled:
